@@ -304,6 +304,7 @@ func (s *PersistentHybridIndex) Remove(id uint32) error {
 	memtables := s.memtableQueue.list()
 	if len(memtables) > 0 {
 		mutable := memtables[len(memtables)-1]
+		verifPoint("remove:before_remove", mutable)
 		return mutable.remove(id)
 	}
 
